@@ -164,8 +164,8 @@ def exchange_flows(ctx, rng, n):
                             "subject_token_type": TT + ("refresh_token" if use_refresh else "access_token")}
                     if want:
                         body["scope"] = " ".join(want)
-                    if rng.random() < 0.3:
-                        body["requested_token_type"] = TT + rng.choice(["access_token", "refresh_token"])
+                    if rng.random() < 0.5:
+                        body["requested_token_type"] = TT + rng.choice(["access_token", "refresh_token", "refresh_token"])
                     if other != client and rng.random() < 0.7:
                         body["audience"] = other
                     resp, err = token_call(rs, other, body)
@@ -190,6 +190,33 @@ def exchange_flows(ctx, rng, n):
                             js = js.split(" ") if isinstance(js, str) else js
                             if set(js) != got:
                                 ctx.violation("view-jwt", "exchange JWT scope %r vs response %r" % (js, sorted(got)), hist)
+                        # an exchanged refresh token refreshed by the requesting client: still within the subject token's scope
+                        rt_val = resp.get("refresh_token") or (resp.get("access_token") if body.get("requested_token_type", "").endswith("refresh_token") else None)
+                        if rt_val:
+                            for rscope in (None, sorted(set(stok.scope))[:2], list(stok.scope) + ["profile", "email"]):
+                                rb = {"grant_type": "refresh_token", "refresh_token": rt_val}
+                                if rscope:
+                                    rb["scope"] = " ".join(rscope)
+                                r2, e2 = token_call(rs, other, rb)
+                                rs.find_new_grants()
+                                rs.harvest()
+                                hist.append({"refresh_of_exchanged_by": other, "asked": rscope, "got": scope_of(r2) if r2 else None, "err": e2})
+                                ctx.count("exchange-refresh:" + ("ok" if r2 else "refused"))
+                                if r2:
+                                    g2 = set(scope_of(r2))
+                                    if g2 - set(stok.scope):
+                                        ctx.violation("exchange-refresh-widened", "refreshing an exchanged refresh token returned %r beyond the subject token's %r"
+                                                      % (sorted(g2), list(stok.scope)), hist)
+                                    if g2 - set(allowed(rs, other)):
+                                        ctx.violation("exchange-not-allowed", "refresh of an exchanged token returned %r not allowed for %s" % (sorted(g2), other), hist)
+                        # every token held by an exchange grant stays within the subject token's scope
+                        from idpyoidc.server.session.grant import ExchangeGrant
+                        for (sid_, g_, u_, c_) in rs.grants:
+                            if isinstance(g_, ExchangeGrant):
+                                for t_ in g_.issued_token:
+                                    if set(t_.scope) - set(subject.scope if stok is subject else stok.scope) - set(stok.scope):
+                                        ctx.violation("exchange-refresh-widened", "token %s of an exchange grant carries %r beyond the subject token's %r"
+                                                      % (t_.token_class, sorted(t_.scope), list(stok.scope)), hist)
                         # chain: sometimes continue from the exchanged token
                         if newtok is not None and newtok.token_class == "access_token" and rng.random() < 0.5:
                             subject, client = newtok, other
